@@ -26,6 +26,8 @@ def run(ctx):
     Q.k15_edges(ctx)
     Q.k16_connect_cycles(ctx)
     Q.k17_find_path(ctx)
+    LK.k4c_connect_before_collapse(ctx)
+    ctx.floor("K4", 1)
     ctx.floor("K12", 2)
     ctx.floor("K6", 2)
     ctx.floor("K13", 4)
